@@ -26,14 +26,16 @@ from typing import Any
 from ..engine.cfg import CFG
 from ..engine.normalize import inline_helpers, positional
 from ..engine.report import AnalysisError, Run
-from ..engine.resolver import FuncInfo, Program, body_walk, parent_map, walk_no_nested
+from ..engine.resolver import ClassInfo, FuncInfo, Program, body_walk, parent_map, walk_no_nested
 from ..engine.terms import Poly
 from ..engine.util import find_calls, method_call, node_writes, reaching_defs, u, writes_of
-from ._c18_util import NONE, Leaf, SymExec, cneg, div_atom, div_linear, fmt, interval
+from ._c18_util import NONE, EffectExec, Leaf, SymExec, cneg, div_atom, div_linear, facts_of, fmt, interval
 
 MC = "timeseries.battery_pool._metric_calculator"
 METH = "timeseries.battery_pool._methods"
 FETCH = "timeseries.battery_pool._component_metric_fetcher"
+REC = "timeseries.battery_pool._component_metrics"
+ACCESSOR = "get"  # the method of a component record through which the calculators read a metric value
 
 METRIC = {"ComponentMetricId.CAPACITY": "capacity", "ComponentMetricId.SOC": "soc",
           "ComponentMetricId.SOC_LOWER_BOUND": "lower", "ComponentMetricId.SOC_UPPER_BOUND": "upper"}
@@ -106,7 +108,7 @@ class Calc:
     # ------------------------------------------------------------------ atoms
     def _call_hook(self, sym: SymExec, fname: str, recv: str | None, args: list[Poly], kws: dict[str, Poly],
                    call: ast.Call) -> Poly | None:
-        if recv in self.data_atoms and fname == f"{recv}.get" and len(args) == 1 and not kws \
+        if recv in self.data_atoms and fname == f"{recv}.{ACCESSOR}" and len(args) == 1 and not kws \
                 and repr(args[0]).startswith("ComponentMetricId."):
             role = METRIC.get(repr(args[0]), f"metric:{args[0]!r}")
             if self.roles.setdefault(role, recv) != recv:
@@ -829,6 +831,234 @@ def check_working_set(run: Run, prog: Program) -> None:  # noqa: C901
               file=init.file)
 
 
+# =============================================================================================
+# C18.FRESH  the values handed to the calculators are the working batteries' *current* metrics
+# =============================================================================================
+def record_class(prog: Program) -> ClassInfo:
+    """The class of the component records: what the fetcher builds, the aggregator caches and the
+    calculators read through `ACCESSOR` (bound by that role; the name is whatever the fetcher constructs)."""
+    ff = prog.func(f"{FETCH}:LatestMetricsFetcher.fetch_next")
+    found: dict[str, ClassInfo] = {}
+    for c in find_calls(inline_helpers(prog, ff), lambda _c: True):
+        obj = prog.resolve_name(ff.module, u(c.func)) if isinstance(c.func, (ast.Name, ast.Attribute)) else None
+        if isinstance(obj, ClassInfo) and prog.resolve_method(obj, ACCESSOR) is not None:
+            found[obj.qual] = obj
+    if len(found) != 1:
+        raise AnalysisError(f"{ff.qual}: the class of the component records was not found ({sorted(found)})")
+    return next(iter(found.values()))
+
+
+def _reads_of_self(fn: FuncInfo) -> set[str]:
+    me = fn.params[0] if fn.params else "self"
+    return {n.attr for n in body_walk(fn.node) if isinstance(n, ast.Attribute) and isinstance(n.ctx, ast.Load)
+            and isinstance(n.value, ast.Name) and n.value.id == me}
+
+
+def _spellings(prog: Program, cls: ClassInfo, attr: str) -> set[str]:
+    """Names under which `self.<attr>` is read: the attribute itself and the properties that return it."""
+    out = {attr}
+    for c in prog.mro(cls):
+        for m in c.methods.values():
+            body = [s for s in m.node.body if not (isinstance(s, ast.Expr) and isinstance(s.value, ast.Constant))]
+            if any(u(d) == "property" for d in m.node.decorator_list) and len(body) == 1 \
+                    and isinstance(body[0], ast.Return) and m.params and u(body[0].value) == f"{m.params[0]}.{attr}":
+                out.add(m.name)
+    return out
+
+
+def _exact_view(sym: SymExec, name: str) -> str:
+    """`dict(x)` / `tuple(x)` / `list(x)` / `x.items()` compare equal exactly when x does."""
+    st = sym.struct.get(name)
+    if st is not None and st[0] == "call" and not st[3]:
+        if st[1] in ("dict", "tuple", "list") and len(st[2]) == 1:
+            return _exact_view(sym, repr(st[2][0]))
+        if st[1].endswith(".items") and not st[2]:
+            return _exact_view(sym, st[1][:-len(".items")])
+    return name
+
+
+def _equal_pairs(sym: SymExec, f: Any) -> list[frozenset[str]]:
+    """The pairs of terms an `==` fact states to be equal (a comparison of two tuples is elementwise)."""
+    if not (isinstance(f, tuple) and len(f) == 2 and f[0] == "==" and isinstance(f[1], frozenset) and len(f[1]) == 2):
+        return []
+    a, b = sorted(f[1])
+    sa, sb = sym.struct.get(a), sym.struct.get(b)
+    if sa is not None and sb is not None and sa[0] == sb[0] == "tuple" and len(sa[1]) == len(sb[1]):
+        return [p for x, y in zip(sa[1], sb[1]) for p in _equal_pairs(sym, ("==", frozenset({repr(x), repr(y)})))]
+    return [frozenset({_exact_view(sym, a), _exact_view(sym, b)})]
+
+
+def check_record_equality(run: Run, prog: Program, rec: ClassInfo, user: str) -> None:
+    """Two records compare equal only if the values the calculators read from them are equal (`==`)."""
+    get = prog.resolve_method(rec, ACCESSOR)
+    assert get is not None
+    payload = sorted(a for a in _reads_of_self(get) if prog.resolve_method(rec, a) is None)
+    if not payload:
+        raise AnalysisError(f"{get.qual}: the state a metric value is read from was not found")
+    for op, claims_when in (("__eq__", True), ("__ne__", False)):
+        fn = prog.resolve_method(rec, op)
+        construct = f"{rec.name}.{op}"
+        if fn is None:
+            # identity / generated field-wise equality (or `!=` as the negation of __eq__): nothing tolerant —
+            # unless a generated (dataclass) comparison is told to leave the payload out
+            left_out = [a for a in payload for v in [rec.class_assigns.get(a)] if isinstance(v, ast.Call) and any(
+                k.arg == "compare" and isinstance(k.value, ast.Constant) and k.value.value is False for k in v.keywords)]
+            run.check(not left_out, "C18.FRESH", rec.qual, construct,
+                      f"the generated comparison of {rec.name} leaves out {left_out} (compare=False), the state the "
+                      f"calculators read metric values from: in {user} records with different values compare equal and "
+                      "no recomputation is triggered", node=rec.node, file=rec.module.rel,
+                      instance=f"{rec.qual}: {op} not user-defined")
+            continue
+        run.analysed(fn.qual)
+        if len(fn.params) != 2:
+            raise AnalysisError(f"{fn.qual}: signature changed")
+        me, other = fn.params
+        sym = SymExec(prog, fn)
+        wit: list[str] = []
+        for x in sym.run(list(fn.node.body), {}):
+            if x.kind == "raise":
+                continue
+            if x.kind != "return":
+                raise AnalysisError(f"{fn.qual}: a path ends in `{x.kind}`")
+            val = x.value if x.value is not None else NONE
+            shown, conj = repr(val), set(x.facts)
+            st = sym.parts(val, "cond")
+            if st is not None:
+                c = st[1] if claims_when else cneg(st[1])
+                if c == ("const", False):
+                    continue
+                conj |= set(facts_of(c))
+            elif shown in (("False", "None", "0") if claims_when else ("True", "1")) or shown == "NotImplemented":
+                continue  # this path does not say "equal"
+            pairs = {p for f in conj for p in _equal_pairs(sym, f)}
+            if frozenset({me, other}) in pairs:
+                continue  # delegates to the sibling operator, decided there
+            missing = [a for a in payload if not any(
+                frozenset({f"{me}.{s1}", f"{other}.{s2}"}) in pairs
+                for s1 in _spellings(prog, rec, a) for s2 in _spellings(prog, rec, a))]
+            if missing:
+                wit.append(f"returns `{shown[:120]}` when {', '.join(fmt(f) for f in x.facts) or 'always'}: "
+                           f"{', '.join(f'{me}.{a} == {other}.{a}' for a in missing)} is not required")
+        run.check(not wit, "C18.FRESH", fn.qual, construct,
+                  f"{construct} decides in {user} whether a received record differs from the cached one, and it can "
+                  f"call two records equal whose metric values (read by the calculators through `{ACCESSOR}` from "
+                  f"{', '.join('self.' + a for a in payload)}) differ — {'; '.join(wit[:2])}. Such a message is not an update, "
+                  "calculate() is not re-run and the published SoC / capacity stops being the aggregate of the working "
+                  "batteries' current metrics (the error accumulates over many small steps). The record comparison must "
+                  "be exact on the payload: no tolerance / rounding (isclose, round, abs(a-b) < eps), no comparison of "
+                  "keys, ids or timestamps only, no constant True, no __ne__ that disagrees with __eq__",
+                  node=fn.node, file=fn.file, instance=f"{rec.qual}: {op} exact on {payload}")
+
+
+def check_fresh(run: Run, prog: Program) -> dict[str, Any]:  # noqa: C901
+    """-> what the decision was read from: {"compared": a record comparison takes part, "live": quals executed}."""
+    info: dict[str, Any] = {"compared": False, "live": set()}
+    cls = prog.cls(f"{METH}:SendOnUpdate")
+    CALC = "self._metric_calculator"
+    calls = [c for m in cls.methods.values() for c in find_calls(m.node, lambda c: method_call(c, CALC, "calculate"))]
+    if len(calls) != 1:
+        return info  # reported by C18.EXCL
+    cache = u(positional(calls[0], prog.func(f"{MC}:SoCCalculator.calculate").params[1:]).get("metrics_data"))
+    if not cache.startswith("self."):
+        return info  # reported by C18.EXCL
+    waited = {u(c.func.value) for m in cls.methods.values()
+              if find_calls(m.node, lambda c: method_call(c, CALC, "calculate"))
+              for c in find_calls(m.node, lambda c: method_call(c, None, "wait") and not c.args)
+              if isinstance(c.func, ast.Attribute)}
+    if not waited:
+        raise AnalysisError(f"{cls.qual}: the event that triggers the recomputation was not found")
+    methods = [m for m in cls.methods.values() if m.name != "__init__"]
+
+    def store_points(m: FuncInfo, via: set[str]) -> list[ast.AST]:
+        names = {cache} | {t.id for s in body_walk(m.node) if isinstance(s, ast.Assign) and u(s.value) == cache
+                           for t in s.targets if isinstance(t, ast.Name)}
+        out: list[ast.AST] = []
+        for n in body_walk(m.node):
+            if isinstance(n, (ast.Assign, ast.AnnAssign, ast.AugAssign)):
+                ts = n.targets if isinstance(n, ast.Assign) else [n.target]
+                if any(isinstance(t, ast.Subscript) and u(t.value) in names for t in ts):
+                    out.append(n)
+            elif isinstance(n, ast.Call) and isinstance(n.func, ast.Attribute):
+                if u(n.func.value) in names and n.func.attr in ("update", "setdefault", "__setitem__"):
+                    raise AnalysisError(f"{m.qual}: records are cached through `{n.func.attr}` (shape not read)")
+                if u(n.func.value) in ("self", "cls") and n.func.attr in via:
+                    out.append(n)
+        return out
+
+    storing: set[str] = set()
+    while True:  # the methods that store a record, directly or through a private helper
+        more = {m.name for m in methods if m.name not in storing and store_points(m, storing)}
+        if not more:
+            break
+        storing |= more
+    if not storing:
+        raise AnalysisError(f"{cls.qual}: no method stores a received record into {cache}")
+    units: list[tuple[FuncInfo, ast.For]] = []
+    loose: list[FuncInfo] = []
+    for m in methods:
+        pts = store_points(m, storing)
+        if not pts:
+            continue
+        loops = [n for n in body_walk(m.node) if isinstance(n, ast.For)]
+        for p in pts:
+            holders = [lp for lp in loops if any(x is p for b in lp.body for x in walk_no_nested(b))]
+            inner = [lp for lp in holders if not any(o is not lp and any(x is o for b in lp.body for x in walk_no_nested(b))
+                                                     for o in holders)]
+            if inner and not any(lp is inner[0] for _m, lp in units):
+                units.append((m, inner[0]))
+            elif not inner:
+                loose.append(m)
+    called = {n.func.attr for m in methods for n in body_walk(m.node) if isinstance(n, ast.Call)
+              and isinstance(n.func, ast.Attribute) and u(n.func.value) in ("self", "cls")}
+    for m in loose:
+        if m.name not in called:
+            raise AnalysisError(f"{m.qual}: a record is stored into {cache} outside a per-message loop (shape not read)")
+    if not units:
+        raise AnalysisError(f"{cls.qual}: the loop that stores the received records was not found")
+    compared = False
+    for m, loop in units:
+        run.analysed(m.qual)
+        if not isinstance(loop.target, ast.Name):
+            raise AnalysisError(f"{m.qual}: unsupported loop target `{u(loop.target)}`")
+        sym = EffectExec(prog, m, item_atom="ITEM")
+        leaves = sym.run(list(loop.body), {loop.target.id: Poly.atom("ITEM")})
+        register_helpers(run, prog, m, used=sym.used)
+        info["live"] |= {m.qual} | set(sym.used)
+        wit: list[str] = []
+        n_store = 0
+        for x in leaves:
+            fired = any(isinstance(f, tuple) and f[0] == "effect" and f[1] in {f"{ev}.set" for ev in waited} for f in x.facts)
+            for f in x.facts:
+                if not (isinstance(f, tuple) and f[0] == "store" and f[1] == cache):
+                    continue
+                n_store += 1
+                _k, _base, key, val = f
+                old = {f"{cache}[{key}]", f"{cache}.get({key})", f"{cache}.get({key}, None)"}
+                same = any(g == ("==", frozenset({val, o})) for g in x.facts for o in old)
+                compared = compared or same or any(g == ("!=", frozenset({val, o})) for g in x.facts for o in old)
+                if not (fired or same):
+                    conds = [fmt(g) for g in x.facts if not (isinstance(g, tuple) and g[0] in ("store", "effect"))]
+                    wit.append(f"{cache}[{key}] = {val} when {', '.join(conds) or 'always'}")
+        ev = sorted(waited)[0]
+        run.check(bool(n_store) and not wit, "C18.FRESH", m.qual, f"{cache}[id] = record  =>  {ev}.set() unless record == cached record",
+                  f"a received record replaces the cached one without `{ev}.set()` on a path where it is not known to be "
+                  f"equal (`==`, evaluated before the store) to the entry it replaces: {'; '.join(wit[:2]) or 'no store found on the paths'}. "
+                  "The data the calculators read changes but calculate() is not re-run, so the published SoC / capacity is "
+                  "not the aggregate of the working batteries' current metrics. Also excluded: the first record of a "
+                  "component not counting as an update, a change test on identity / timestamps / another component's "
+                  "entry, a comparison made after the cache was already overwritten, the trigger dropped on a branch",
+                  node=loop, file=m.file, path=wit[:4] or None)
+    rec = record_class(prog)
+    if compared:
+        check_record_equality(run, prog, rec, f"{cls.name}")
+    else:
+        # every stored record triggers a recomputation: no record comparison takes part in the decision
+        run.check(True, "C18.FRESH", cls.qual, "every stored record triggers a recomputation", "",
+                  instance=f"{cls.qual}: no record comparison on the store paths")
+    info["compared"] = compared
+    return info
+
+
 CONTROLS = [
     ("clamp dropped", MC, "            soc_scaled = min(max(soc_scaled, 0.0), 100.0)\n", "", "C18.RANGE"),
     ("upper - soc", MC, "                    (soc - soc_lower_bound)\n", "                    (soc_upper_bound - soc)\n", "C18.FORM"),
@@ -854,6 +1084,14 @@ CONTROLS = [
     ("inverter map not initialised", METH, "        self._bat_inv_map = _get_battery_inverter_mappings(",
      "        bat_inv_map = _get_battery_inverter_mappings(", "C18.EXCL"),
     ("metrics never stored", FETCH, "                metrics[mid] = value\n", "                pass\n", "C18.EXCL"),
+    ("a changed record does not trigger a recomputation", METH,
+     "                if self._metric_updated(metrics):\n                    self._update_event.set()\n", "", "C18.FRESH"),
+    ("record compared with the cache after it was overwritten", METH,
+     "                if self._metric_updated(metrics):\n                    self._update_event.set()\n\n"
+     "                cid = metrics.component_id\n                # Save metric even if not changed to update its timestamp.\n"
+     "                self._cached_metrics[cid] = metrics\n",
+     "                cid = metrics.component_id\n                self._cached_metrics[cid] = metrics\n"
+     "                if self._metric_updated(metrics):\n                    self._update_event.set()\n", "C18.FRESH"),
 ]
 
 
@@ -990,12 +1228,61 @@ def structural_controls(prog: Program) -> list[tuple[str, str, str, str, str]]: 
               and any(u(t) == "self._working_batteries" for t in (n.targets if isinstance(n, ast.Assign) else [n.target]))]
         if ws and len(m.params) >= 2:
             add(f"SendOnUpdate.{mname}: working set not intersected", METH, [(n.value, m.params[1]) for n in ws], "C18.EXCL")  # type: ignore[misc]
+    # ---- C18.FRESH: the record comparison / the change test / the trigger, located by role in the code
+    # the decision is actually read from (a control on a comparison that takes no part in it proves nothing)
+    try:
+        info = check_fresh(Run("C18", "quick", 0), prog)
+        rec = record_class(prog) if info["compared"] else None
+    except AnalysisError:
+        info, rec = {"compared": False, "live": set()}, None
+    live = info["live"]
+    if f"{METH}:SendOnUpdate._metric_updated" in live:
+        out.append(("first record of a component is not an update", METH,
+                    "            cid not in self._cached_metrics or new_metrics != self._cached_metrics[cid]",
+                    "            cid in self._cached_metrics and new_metrics != self._cached_metrics[cid]", "C18.FRESH"))
+    if rec is not None:
+        out.append(("records compared by their metric ids only", REC, "self._metrics == other._metrics",
+                    "self._metrics.keys() == other._metrics.keys()", "C18.FRESH"))
+    eq = prog.resolve_method(rec, "__eq__") if rec is not None else None
+    get = prog.resolve_method(rec, ACCESSOR) if rec is not None else None
+    if rec is not None and eq is not None and get is not None and len(eq.params) == 2:
+        payload = {a for a in _reads_of_self(get) if prog.resolve_method(rec, a) is None}
+        sides = {f"{p_}.{a}" for p_ in eq.params for a in payload}
+        cmps = [n for n in body_walk(eq.node) if isinstance(n, ast.Compare) and len(n.ops) == 1 and isinstance(n.ops[0], ast.Eq)
+                and {u(n.left), u(n.comparators[0])} <= sides and u(n.left) != u(n.comparators[0])]
+        rs = eq.module.source
+        add(f"{rec.name}.__eq__: metric values compared with a tolerance", eq.module.name,
+            [(c, f"all(abs(v - {seg(rs, c.comparators[0])}.get(k, v)) < 1e-3 for k, v in {seg(rs, c.left)}.items())")
+             for c in cmps], "C18.FRESH")
+        rets = [n for n in body_walk(eq.node) if isinstance(n, ast.Return) and n.value is not None
+                and any(x in cmps for x in ast.walk(n.value))]
+        add(f"{rec.name}.__eq__: every record equals every other", eq.module.name, [(r.value, "True") for r in rets], "C18.FRESH")
+    sou = prog.cls(f"{METH}:SendOnUpdate")
+    ms = prog.module(METH).source
+    waits = {u(c.func.value) for m in sou.methods.values()
+             if find_calls(m.node, lambda c: method_call(c, "self._metric_calculator", "calculate"))
+             for c in find_calls(m.node, lambda c: method_call(c, None, "wait") and not c.args) if isinstance(c.func, ast.Attribute)}
+    for m in sou.methods.values():
+        if m.qual not in live:
+            continue
+        trig = [n for n in body_walk(m.node) if isinstance(n, ast.Expr) and isinstance(n.value, ast.Call)
+                and any(method_call(n.value, ev, "set") for ev in waits)]
+        if trig:
+            add(f"SendOnUpdate.{m.name}: recomputation not triggered by a changed record", METH, [(t, "pass") for t in trig], "C18.FRESH")
+        from_cache = {t.id for n in body_walk(m.node) if isinstance(n, ast.Assign) and "self._cached_metrics" in u(n.value)
+                      for t in n.targets if isinstance(t, ast.Name)}
+        neq = [n for n in body_walk(m.node) if isinstance(n, ast.Compare) and len(n.ops) == 1 and isinstance(n.ops[0], ast.NotEq)
+               and any("self._cached_metrics" in u(x) or u(x) in from_cache for x in (n.left, n.comparators[0]))]
+        if len(neq) == 1 and info["compared"]:
+            add(f"SendOnUpdate.{m.name}: records compared by their timestamps", METH,
+                [(neq[0], f"{seg(ms, neq[0].left)}.timestamp != {seg(ms, neq[0].comparators[0])}.timestamp")], "C18.FRESH")
     return out
 
 
 def run_rules(run: Run, prog: Program) -> None:
     check_form(run, prog)
     check_excl(run, prog)
+    check_fresh(run, prog)
 
 
 def check(run: Run, prog: Program, tier: str) -> str:
@@ -1007,9 +1294,13 @@ def check(run: Run, prog: Program, tier: str) -> str:
     run.rule("C18.EXCL", "iteration over working batteries; absent/incomplete batteries skipped before any "
              "accumulator or sentinel update; None iff none qualified; NaN metrics dropped; working-set "
              "intersection at both sites; eviction of stopped batteries")
+    run.rule("C18.FRESH", "a received record that differs from the cached one triggers a recomputation: the event the "
+             "sending loop waits for is set on every path that stores a record, except where the record is known equal "
+             "to the entry it replaces — by a record comparison that is exact on the values the calculators read")
     run_rules(run, prog)
     run.floor("C18.FORM", 6)
     run.floor("C18.EXCL", 14)
+    run.floor("C18.FRESH", 2)
     from ..engine.controls import run_controls
 
     run_controls(run, CONTROLS + structural_controls(prog), run_rules, tier, base_prog=prog)
